@@ -15,10 +15,12 @@ DEFAULT_FP = "2B280B23E1107BB62ABFC40DDCC8824814F80A72"
 DEFAULT_URL = "wss://snowflake.torproject.net/"
 NATS = {"unrestricted": "u", "restricted": "r", "unknown": "k", "": "k"}
 TMO = 10000
+ONE_P_KINDS = ("delivery-herd", "late-answer-accepted-then-more", "client-timeout-late-answer", "early-answer-poll-expires",
+               "timeout-boundary-herd")
 
 
 class Scen:
-    def __init__(self, name, kind, bridges=None, herd=False, watchdog=None, labels=None, barrier=None):
+    def __init__(self, name, kind, bridges=None, herd=False, watchdog=None, labels=None, barrier=None, sequenced=False):
         self.name = name
         self.kind = kind
         self.bridges = bridges                # full list installed with InstallBridgeListProfile (None: built-in default only)
@@ -27,11 +29,14 @@ class Scen:
         self.watchdog = watchdog
         self.forced_labels = labels           # explicit label derivation function (for lock-forced schedules)
         self.barrier = barrier                # delivery barrier: number of client handlers whose first Write waits for the others
+        self.sequenced = sequenced            # sequenced mode although the labels are forced (lock events + well-separated rest)
         self.np = self.nc = self.na = self.nl = self.ni = 0
 
-    def poll(self, t, sid, nat, clients=0, ptype="standalone"):
+    def poll(self, t, sid, nat, clients=0, ptype="standalone", ver=None):
+        """ver: None = body from the stock encoder; otherwise a hand-built body with this Version string
+        ("!" suffix: no AcceptedRelayPattern field, "~": no NAT field when the NAT is empty)"""
         k = self.np; self.np += 1
-        self.events.append(dict(kind="P", k=k, t=t, sid=sid, nat=nat, clients=clients, ptype=ptype))
+        self.events.append(dict(kind="P", k=k, t=t, sid=sid, nat=nat, clients=clients, ptype=ptype, ver=ver))
         return k
 
     def client(self, t, nat, offer, fp="-", mode="v"):
@@ -72,7 +77,8 @@ class Scen:
         ev = []
         for e in self.events:
             if e["kind"] == "P":
-                ev.append("P%d:%s:%s:%s:%d@%d" % (e["k"], e["sid"], e["nat"], e["ptype"], e["clients"], e["t"]))
+                ev.append("P%d:%s:%s:%s:%d%s@%d" % (e["k"], e["sid"], e["nat"], e["ptype"], e["clients"],
+                                                   (":" + e["ver"]) if e.get("ver") else "", e["t"]))
             elif e["kind"] == "C":
                 ev.append("C%d:%s:%s:%s:%s@%d" % (e["k"], e["nat"], e["fp"], e["offer"], e["mode"], e["t"]))
             elif e["kind"] == "A":
@@ -86,7 +92,7 @@ class Scen:
             ev.append("W0:%d@0" % self.watchdog)
         if self.barrier:
             ev.append("D0:%d@0" % self.barrier)
-        if not self.herd and not self.forced_labels:
+        if (not self.herd and not self.forced_labels) or self.sequenced:
             ev.append("Q0:1@0")   # sequenced mode: well-separated events cannot be reordered by a loaded machine
         br = ",".join("%s=%s" % b for b in self.bridges) if self.bridges is not None else "-"
         return "broker scen %s %s" % (br, ",".join(ev))
@@ -552,12 +558,32 @@ def run_scenarios(ctx, scens, props, label, attempt=0):
     code repeats, a timing slip does not. Property predicates (evaluated on the observed history alone) are
     reported at once."""
     retry = []
+    flagged = set()
     exe = vlib.go_test_build("./broker", name="broker.test")
     env = dict(os.environ, VERIF_DRIVER="broker")
     lines = [s.line() for s in scens]
+    # the delivery herds and the scenarios in which something outlives a finished exchange (an answer accepted too late,
+    # an answer buffered on a poll that expired) once more in a process restricted to one P (sync.Pool and other per-P
+    # caches are then shared by all handlers and handed on deterministically): property predicates only. It runs beside
+    # the main pass (both mostly wait for the protocol's timers).
+    onep = None
+    if attempt == 0:
+        dh = [(sc, line) for sc, line in zip(scens, lines) if sc.kind in ONE_P_KINDS]
+        if dh:
+            import threading
+            box = [None]
+
+            def work():
+                env1 = dict(env, GOMAXPROCS="1")
+                box[0] = vlib.run_impl(exe, [l for _, l in dh], args=["-test.run", "^TestVerifBrokerDriver$"], env=env1, timeout=600)
+            th = threading.Thread(target=work, daemon=True)
+            th.start()
+            onep = (th, dh, box)
     rc, out, err = vlib.run_impl(exe, lines, args=["-test.run", "^TestVerifBrokerDriver$"], env=env, timeout=600)
     if rc != 0 or len(out) != len(lines):
         ctx.violation("driver-crash", "broker driver died rc=%s: %s" % (rc, err[-800:]), dict(label=label, stderr=err[-3000:]))
+        if onep is not None:
+            onep[0].join()
         return
     mlines, minfo = [], []
     for sc, line, o in zip(scens, lines, out):
@@ -571,6 +597,7 @@ def run_scenarios(ctx, scens, props, label, attempt=0):
         for prop, key, text in bad:
             if prop in props:
                 ctx.violation(key, "%s [%s]" % (text, sc.name), dict(label=label, scenario=sc.name, case=line, impl=o))
+                flagged.add(id(sc))    # reported with a property key: a disagreement with the model needs no second run
         if sc.herd:
             tags = Tags()
             hl = herd_labels(sc, obs, tags)
@@ -592,7 +619,8 @@ def run_scenarios(ctx, scens, props, label, attempt=0):
             else:
                 labels, names = derive_labels(sc, obs, tags)
             if getattr(sc, "forced_achieved", None) is not None:
-                ctx.extra["reinstall_race_forced"] = ctx.extra.get("reinstall_race_forced", 0) + (1 if sc.forced_achieved else 0)
+                ek = "late_answer_accepted_forced" if sc.kind == "late-answer-accepted-then-more" else "reinstall_race_forced"
+                ctx.extra[ek] = ctx.extra.get(ek, 0) + (1 if sc.forced_achieved else 0)
             mlines.append(model_line(sc, labels, tags))
             minfo.append((sc, line, o, obs, names, tags))
             # the same labels through the machine over the two array heaps (Model/BrokerImpl.v): which proxy a client is
@@ -622,6 +650,7 @@ def run_scenarios(ctx, scens, props, label, attempt=0):
         ctx.extra["vm_compute_crosschecked"] = ctx.extra.get("vm_compute_crosschecked", 0) + len(sample)
         for i in badidx:
             ctx.not_shown("extraction cross-check differs on " + sample[i][0][:300])
+    retry = [(sc, msg) for sc, msg in retry if id(sc) not in flagged]
     if retry:
         again, seen_sc = [], set()
         for sc, msg in retry:
@@ -637,17 +666,14 @@ def run_scenarios(ctx, scens, props, label, attempt=0):
                 ctx.not_shown(msg + " (three attempts)")
     if attempt > 0:
         return
-    # the delivery herds once more in a process restricted to one P (sync.Pool and other per-P caches are then shared by
-    # all handlers): property predicates only
-    dh = [(sc, line) for sc, line in zip(scens, lines) if sc.kind == "delivery-herd"]
-    if dh:
-        env1 = dict(env, GOMAXPROCS="1")
-        rc, out1, err = vlib.run_impl(exe, [l for _, l in dh], args=["-test.run", "^TestVerifBrokerDriver$"], env=env1, timeout=600)
+    if onep is not None:
+        onep[0].join()
+        dh, (rc, out1, err) = onep[1], onep[2][0]
         if rc != 0 or len(out1) != len(dh):
             ctx.violation("driver-crash", "broker driver (GOMAXPROCS=1) died rc=%s: %s" % (rc, err[-800:]), dict(label=label, stderr=err[-3000:]))
         else:
             for (sc, line), o in zip(dh, out1):
-                ctx.count(line + " #gomaxprocs1", kind="delivery-herd-1p")
+                ctx.count(line + " #gomaxprocs1", kind=("delivery-herd-1p" if sc.kind == "delivery-herd" else sc.kind + "-1p"))
                 for prop, key, text in check_history(sc, parse_obs(o)):
                     if prop in props:
                         ctx.violation(key, "%s [%s, GOMAXPROCS=1]" % (text, sc.name), dict(label=label, scenario=sc.name, case=line, impl=o, gomaxprocs=1))
@@ -701,6 +727,61 @@ def reinstall_race_labels(sc, obs, tags):
     else:
         labels += ["FC:0", "CT:0", "CC:0"]
     sc.forced_achieved = forced
+    return labels, names
+
+
+def poll_label(p, tags):
+    return "P:%d:%s:%d:%d" % (tags(p["sid"]), NATS[p["nat"]], tags(p["ptype"]), p["clients"])
+
+
+def client_label(c, tags, choice):
+    return "C:%s:%s:%d:%s" % (NATS[c["nat"]], "-" if c["fp"] == "-" else str(tags(c["fp"])), tags(c["offer"]),
+                              "-" if choice is None else str(choice))
+
+
+def late_answer_labels(sc, obs, tags):
+    """poll@0, client@300 (matched; the proxy stays silent); lock held 9000..11000; the answer is posted @9400 and queues on
+    the lock (ProxyAnswers' lookup); the client's 10 s timer fires @10300+, its select commits to the timeout and its final
+    critical section queues on the lock BEHIND the answer request. On release (sync.Mutex hands over in FIFO order to
+    waiters that waited longer than 1 ms): the answer's lookup still finds the poll, its non-blocking send is ACCEPTED
+    (the proxy is told 'success'), then the client deregisters; nobody ever receives that answer. Afterwards k further
+    exchanges (poll, client, the poll's own answer) run on the same broker. If the machine was too slow for this order,
+    the labels of the order that was observed are produced instead: all are runs of the model."""
+    polls = [e for e in sc.events if e["kind"] == "P"]
+    clients = [e for e in sc.events if e["kind"] == "C"]
+    answers = [e for e in sc.events if e["kind"] == "A"]
+    a0 = [a for a in answers if a["after"] is None][0]
+    labels = [poll_label(polls[0], tags), client_label(clients[0], tags, 0), "RO:0", "RF:0"]
+    names = {"P0": "P%d" % polls[0]["k"], "C0": "C%d" % clients[0]["k"], "A0": "A%d" % a0["k"]}
+    la = "A:%d:%d" % (tags(a0["sid"]), tags(a0["ans"]))
+    r, ra = obs.get("C%d" % clients[0]["k"], ""), obs.get("A%d" % a0["k"], "")
+    sc.forced_achieved = False
+    if r.startswith("answer:"):
+        labels += [la, "AP:0", "TA:0", "CC:0"]
+    elif ra == "ok":
+        labels += ["FC:0", "CT:0", la, "AP:0", "CC:0"]
+        sc.forced_achieved = True
+    else:
+        labels += ["FC:0", "CT:0", "CC:0", la]
+    naid = 1
+    for j, (p, c) in enumerate(zip(polls[1:], clients[1:]), start=1):
+        labels.append(poll_label(p, tags))
+        names["P%d" % j] = "P%d" % p["k"]
+        names["C%d" % j] = "C%d" % c["k"]
+        matched = obs.get("P%d" % p["k"], "").startswith("match:")
+        labels.append(client_label(c, tags, j if matched else None))
+        if not matched:
+            labels += ["FW:%d" % j, "WT:%d" % j, "WC:%d" % j]
+            continue
+        labels += ["RO:%d" % j, "RF:%d" % j]
+        mine = [a for a in answers if a["after"] == p["k"] and obs.get("A%d" % a["k"]) in ("ok", "fail")]
+        if mine:
+            a = mine[0]
+            labels += ["A:%d:%d" % (tags(a["sid"]), tags(a["ans"])), "AP:%d" % j, "TA:%d" % j, "CC:%d" % j]
+            names["A%d" % naid] = "A%d" % a["k"]
+            naid += 1
+        else:
+            labels += ["FC:%d" % j, "CT:%d" % j, "CC:%d" % j]
     return labels, names
 
 
@@ -829,14 +910,83 @@ def scenarios(rng, tier):
         # poll timeout, then a client is refused
         for pn, cn in [("unrestricted", "restricted"), ("unknown", "unrestricted"), ("restricted", "unrestricted"), ("", "unrestricted")]:
             sc = Scen(fresh("idle"), "poll-timeout"); sc.poll(0, fresh("sid"), pn); sc.client(10600, cn, "{%s}" % fresh("o")); S.append(sc)
-        # client timeout (proxy never answers), late answer fails
+        # k further exchanges on the same broker after a finished one: whatever the finished exchange left behind (an
+        # answer nobody received, a record, a channel) must not reach them - every later client receives exactly the
+        # answer posted for the poll that got ITS offer
+        def followups(sc, t0, k, gap=700):
+            for j in range(k):
+                sid = fresh("sid")
+                pk = sc.poll(t0 + j * gap, sid, "unrestricted", ptype=rng.choice(["standalone", "webext", "badge", "iptproxy"]))
+                sc.client(t0 + j * gap + 300, rng.choice(["restricted", "unknown", ""]), "{%s}" % fresh("o"), mode=rng.choice(modes))
+                sc.answer(150, sid, fresh("ans"), after_poll=pk)
+        # client timeout (proxy never answers), late answer fails; then further exchanges
         sc = Scen(fresh("ctimeout"), "client-timeout-late-answer")
         sid = fresh("sid"); sc.poll(0, sid, "unrestricted"); sc.client(300, "unknown", "{%s}" % fresh("o"), mode=rng.choice(modes))
         sc.answer(10900, sid, fresh("ans"))
+        followups(sc, 11500, 3)
         S.append(sc)
-        # early answer before any match; poll expires (the /answer call must return)
+        # the late answer is ACCEPTED: it arrives between the client's timeout and its deregistration (lock-forced, see
+        # late_answer_labels); nobody receives it, and the further exchanges must not either
+        for mode in (["v", "a"] if tier == "quick" else modes):
+            sc = Scen(fresh("late"), "late-answer-accepted-then-more", watchdog=24000, labels=late_answer_labels, sequenced=True)
+            sid = fresh("sid"); sc.poll(0, sid, "unrestricted"); sc.client(300, rng.choice(["restricted", "unknown"]), "{%s}" % fresh("o"), mode=mode)
+            sc.lock(9000, 2000); sc.answer(9400, sid, fresh("ans"))
+            followups(sc, 12000, 4)
+            S.append(sc)
+        # early answer before any match; poll expires (the /answer call must return) with the answer still in its
+        # channel; then further exchanges
         sc = Scen(fresh("early"), "early-answer-poll-expires")
         sid = fresh("sid"); sc.poll(0, sid, "unrestricted"); sc.answer(500, sid, fresh("ans")); sc.answer(900, sid, fresh("ans"))
+        followups(sc, 10700, 3)
+        S.append(sc)
+        # wire formats of the proxy poll: every version string the broker accepts (major version 1: "1.0" ... "1.3", a
+        # bare "1", a two-digit minor, three components), with and without the relay-pattern field, with the NAT field
+        # absent. The version must not enter the pool decision: an incompatible client is refused, a compatible one
+        # is given the proxy, whatever version the poll carried.
+        vers = ["1.0", "1.1", "1.2", "1.3", "1", "1.10", "1.0!", "1.1!", "1.2!", "1!", "1.2.3", "1.", "1.3~", "1.0~!"]
+        combos = [(v, pn) for v in vers for pn in nats + [""]]
+        if tier == "quick":
+            combos = [(v, "unrestricted") for v in vers] + rng.sample([c for c in combos if c[1] != "unrestricted"], 12)
+        for ver, pn in combos:
+            sc = Scen(fresh("wire"), "poll-wire-version")
+            sid = fresh("sid")
+            sc.poll(0, sid, pn, clients=rng.randrange(0, 3), ptype=rng.choice(["standalone", "webext", "badge", "iptproxy", "other"]), ver=ver)
+            if pn == "unrestricted":
+                bad_cn, good_cn = "unrestricted", rng.choice(["restricted", "unknown", ""])
+            else:
+                bad_cn, good_cn = rng.choice(["restricted", "unknown", ""]), "unrestricted"
+            sc.client(300, bad_cn, "{%s}" % fresh("o"), mode=rng.choice(modes))
+            sc.client(700, good_cn, "{%s}" % fresh("o"), mode=rng.choice(modes))
+            sc.answer(150, sid, fresh("ans"), after_poll=0)
+            S.append(sc)
+        # repeated session ids: the same /proxy body POSTed again while the first poll is pending / matched / just
+        # expired. Every poll must get its response within its own 10 s (each is registered with a waiter of its own;
+        # the id map resolves the id to the newest), and nothing may be left behind.
+        sc = Scen(fresh("dup"), "duplicate-sid", watchdog=23000)
+        sid = fresh("sid"); sc.poll(0, sid, "unrestricted"); sc.poll(300, sid, "unrestricted"); sc.poll(700, sid, "unrestricted")
+        S.append(sc)
+        sc = Scen(fresh("dup"), "duplicate-sid", watchdog=23000)    # second poll while the first is matched and its client waits
+        sid = fresh("sid"); sc.poll(0, sid, "unrestricted"); sc.client(300, "restricted", "{%s}" % fresh("o"), mode=rng.choice(modes))
+        sc.poll(700, sid, "unrestricted"); sc.answer(1100, sid, fresh("ans")); sc.client(1500, "unknown", "{%s}" % fresh("o"))
+        S.append(sc)
+        sc = Scen(fresh("dup"), "duplicate-sid", watchdog=23000)    # the same without a second client: the answer stays on the second poll
+        sid = fresh("sid"); sc.poll(0, sid, "restricted"); sc.client(300, "unrestricted", "{%s}" % fresh("o"), mode=rng.choice(modes))
+        sc.poll(700, sid, "restricted"); sc.answer(1100, sid, fresh("ans"))
+        S.append(sc)
+        sc = Scen(fresh("dup"), "duplicate-sid", watchdog=25000)    # second poll right after the first expired
+        sid = fresh("sid"); sc.poll(0, sid, "unrestricted"); sc.poll(10200, sid, "unrestricted")
+        S.append(sc)
+        for loads in ([2, 0], [0, 1]):                               # a client takes the less loaded of the two; the answer resolves to the newer
+            sc = Scen(fresh("dup"), "duplicate-sid", watchdog=23000)
+            sid = fresh("sid"); sc.poll(0, sid, "unrestricted", clients=loads[0]); sc.poll(300, sid, "unrestricted", clients=loads[1])
+            sc.client(700, "restricted", "{%s}" % fresh("o")); sc.answer(1200, sid, fresh("ans"))
+            S.append(sc)
+        sc = Scen(fresh("dupherd"), "duplicate-sid-herd", herd=True, watchdog=23000)
+        sid = fresh("sid")
+        for j in range(6):
+            sc.poll(rng.randrange(0, 30), sid, rng.choice(["unrestricted", "restricted"]))
+        sc.poll(10, fresh("sid"), "unrestricted"); sc.poll(20, fresh("sid"), "restricted")
+        sc.client(300, "restricted", "{%s}" % fresh("o")); sc.client(310, "unrestricted", "{%s}" % fresh("o"), mode="a")
         S.append(sc)
         # early answer, then a client is matched and receives it
         sc = Scen(fresh("early"), "early-answer-then-match")
@@ -898,7 +1048,7 @@ def scenarios(rng, tier):
             S.append(sc)
         # timeout-boundary herds: clients arrive around the polls' expiry, answers around the clients' expiry
         for size in ([8] if tier == "quick" else [8, 24]):
-            sc = Scen(fresh("edge"), "timeout-boundary-herd", herd=True, watchdog=24000)
+            sc = Scen(fresh("edge"), "timeout-boundary-herd", herd=True, watchdog=26000)
             sids = []
             for j in range(size):
                 sid = fresh("sid"); sids.append(sid)
@@ -907,6 +1057,9 @@ def scenarios(rng, tier):
                 sc.client(10000 + rng.randrange(-15, 25), rng.choice(["restricted", "unknown"]), "{%s}" % fresh("o"), mode=rng.choice(modes))
             for j, sid in enumerate(sids):
                 sc.answer(10000 + rng.randrange(-20, 20), sid, fresh("ans"), after_poll=j)
+            # answers that lost (or nearly lost) the race against their client's timeout may sit in a finished exchange's
+            # channel: the exchanges that follow must not see them
+            followups(sc, 21500, 3, gap=400)
             S.append(sc)
     return S
 
